@@ -1,599 +1,12 @@
 /-
-  Lemmas relating the model's Bloom operations under the default hashing strategy to the
-  documented hashing rule and the reference reader / writer of `Spec/Layout.lean`.
+  Lemmas relating the model's Bloom, counting-Bloom and count-min operations under the default
+  hashing strategy to the documented hashing rule and the reference reader / writer of
+  `Spec/Layout.lean`.
+
+  The lemmas live in one module per data-structure family (plus a family-independent one); this
+  module only gathers them (and `Lemmas/LayoutSpec.lean`, as before).
 -/
 import PyProb.Lemmas.LayoutSpec
-import PyProb.Properties.C18
-
-namespace PyProb
-
-/-- `check_alt` on a long enough hash list never fails and tests the first `n` positions -/
-theorem checkGo_all (m : Nat) (bits : Bytes) (n : Nat) (hs : List Nat) (h : n ≤ hs.length) :
-    Bloom.checkGo m bits n hs = .ok ((hs.take n).all fun x => testBitB bits (x % m)) := by
-  induction n generalizing hs with
-  | zero => simp [Bloom.checkGo]
-  | succ n ih =>
-      cases hs with
-      | nil => simp at h
-      | cons x xs =>
-          simp only [Bloom.checkGo, List.take_succ_cons, List.all_cons]
-          cases hx : testBitB bits (x % m)
-          · simp
-          · simp [ih xs (by simpa using h)]
-
-/-- the documented hashing rule is the model's default strategy -/
-theorem defaultFnv_spec (key : Key) (k : Nat) :
-    defaultFnv key k = (List.range k).map (Spec.hashI key.units) := by
-  rw [C18.C18_default_is_published_fnv]
-  rfl
-
-theorem positions_spec (b : Bloom) (key : Key) :
-    b.positions (defaultFnv key b.k) = Spec.bloomPositions b.k b.m key.units := by
-  unfold Bloom.positions Spec.bloomPositions
-  rw [defaultFnv_spec, List.take_of_length_le (by simp)]
-  simp [List.map_map, Function.comp_def]
-
-theorem bitOfFile_append (bits suf : Bytes) (i : Nat) (h : i / 8 < bits.length) :
-    Spec.bitOfFile (bits ++ suf) i = testBitB bits i := by
-  rw [testBitB_eq]
-  unfold Spec.bitOfFile Spec.at'
-  simp [List.getD_eq_getElem?_getD, List.getElem?_append_left h]
-
-theorem foldl_setBit_spec (ps : List Nat) (bs : Bytes) : ps.foldl Spec.setBit bs = ps.foldl setBitB bs := by
-  induction ps generalizing bs with
-  | nil => rfl
-  | cons p ps ih => simp only [List.foldl_cons, spec_setBit, ih]
-
-theorem bloomRun_eq (k m : Nat) (keys : List Key) (b0 : Bloom) (hk : b0.k = k) (hm : b0.m = m) :
-    keys.foldl (fun b key => (b.addAlt (defaultFnv key k)).1) b0 =
-      { b0 with
-        bits := (keys.map Key.units).foldl (fun arr key => (Spec.bloomPositions k m key).foldl Spec.setBit arr) b0.bits
-        count := b0.count + keys.length } := by
-  induction keys generalizing b0 with
-  | nil => simp
-  | cons key keys ih =>
-      simp only [List.foldl_cons, List.map_cons, List.length_cons]
-      have hlen : ¬ (defaultFnv key k).length < b0.k := by rw [C18.C18_len_default, hk]; omega
-      have hstep : (b0.addAlt (defaultFnv key k)).1 =
-          { b0 with bits := (Spec.bloomPositions k m key.units).foldl Spec.setBit b0.bits, count := b0.count + 1 } := by
-        unfold Bloom.addAlt
-        simp only [hlen, if_false]
-        rw [foldl_setBit_spec, ← hk, ← hm, ← positions_spec, hk]
-      rw [hstep, ih _ (by exact hk) (by exact hm)]
-      simp only [Bloom.mk.injEq, true_and]
-      push_cast; omega
-
-/-! ### reading cells back from a file -/
-
-theorem at'_u32le_succ (c : Nat) (rest : Bytes) (i : Nat) :
-    Spec.at' (Spec.u32le c ++ rest) (i + 4) = Spec.at' rest i := by
-  simp [Spec.at', Spec.u32le, List.getD_eq_getElem?_getD]
-
-theorem rdU32_u32le_succ (c : Nat) (rest : Bytes) (off : Nat) :
-    Spec.rdU32 (Spec.u32le c ++ rest) (off + 4) = Spec.rdU32 rest off := by
-  unfold Spec.rdU32
-  rw [show off + 4 + 1 = off + 1 + 4 by omega, show off + 4 + 2 = off + 2 + 4 by omega,
-    show off + 4 + 3 = off + 3 + 4 by omega]
-  simp only [at'_u32le_succ]
-
-theorem rdU32_u32le_zero (c : Nat) (rest : Bytes) (h : c < 2 ^ 32) :
-    Spec.rdU32 (Spec.u32le c ++ rest) 0 = c := by
-  simp [Spec.rdU32, Spec.at', Spec.u32le]
-  omega
-
-/-- the uint32 at byte offset `4p` of a counter file is counter `p` -/
-theorem rdU32_cells (cells : List Nat) (suf : Bytes) (p : Nat) (hp : p < cells.length)
-    (h : ∀ x ∈ cells, x < 2 ^ 32) :
-    Spec.rdU32 (cells.flatMap Spec.u32le ++ suf) (4 * p) = cells.getD p 0 := by
-  induction cells generalizing p with
-  | nil => simp at hp
-  | cons c cs ih =>
-      simp only [List.flatMap_cons, List.append_assoc]
-      cases p with
-      | zero => simpa using rdU32_u32le_zero c _ (h c (by simp))
-      | succ p =>
-          rw [show 4 * (p + 1) = 4 * p + 4 by omega, rdU32_u32le_succ]
-          rw [ih p (by simpa using hp) (fun x hx => h x (List.mem_cons_of_mem _ hx))]
-          simp
-
-/-- two's complement code of an int32 -/
-def enc32 (v : Int) : Nat := if v < 0 then (v + 4294967296).toNat else v.toNat
-
-theorem rdI32_cells (cells : List Int) (suf : Bytes) (p : Nat) (hp : p < cells.length)
-    (h : ∀ x ∈ cells, -2147483648 ≤ x ∧ x ≤ 2147483647) :
-    Spec.rdI32 (cells.flatMap Spec.i32le ++ suf) (4 * p) = cells.getD p 0 := by
-  have e : cells.flatMap Spec.i32le = (cells.map enc32).flatMap Spec.u32le := by
-    rw [List.flatMap_map]; rfl
-  unfold Spec.rdI32
-  rw [e, rdU32_cells _ _ p (by simpa using hp)]
-  · have hc := h cells[p] (List.getElem_mem hp)
-    simp only [List.getD_eq_getElem?_getD, List.getElem?_map, List.getElem?_eq_getElem hp, Option.map_some,
-      Option.getD_some]
-    unfold enc32
-    split <;> split <;> omega
-  · intro x hx
-    simp only [List.mem_map] at hx
-    obtain ⟨v, hv, rfl⟩ := hx
-    have := h v hv
-    unfold enc32
-    split <;> omega
-
-/-! ### minimum of a list -/
-
-theorem natCast_foldl_min (xs : List Nat) (x : Nat) :
-    ((xs.foldl min x : Nat) : Int) = (xs.map Int.ofNat).foldl min (x : Int) := by
-  induction xs generalizing x with
-  | nil => rfl
-  | cons y ys ih =>
-      simp only [List.foldl_cons, List.map_cons]
-      rw [ih]
-      congr 1
-      simp only [Int.ofNat_eq_natCast]
-      omega
-
-theorem foldl_min_le (xs : List Int) (x : Int) : xs.foldl min x ≤ x ∧ ∀ y ∈ xs, xs.foldl min x ≤ y := by
-  induction xs generalizing x with
-  | nil => simp
-  | cons y ys ih =>
-      simp only [List.foldl_cons, List.mem_cons]
-      have := ih (min x y)
-      refine ⟨by omega, ?_⟩
-      intro z hz
-      rcases hz with rfl | hz
-      · omega
-      · exact this.2 z hz
-
-theorem foldl_min_mem (xs : List Int) (x : Int) : xs.foldl min x = x ∨ xs.foldl min x ∈ xs := by
-  induction xs generalizing x with
-  | nil => simp
-  | cons y ys ih =>
-      simp only [List.foldl_cons, List.mem_cons]
-      rcases ih (min x y) with h | h
-      · rw [h]
-        by_cases hxy : x ≤ y
-        · left; omega
-        · right; left; omega
-      · right; right; exact h
-
-/-- the head of the sorted list is the minimum -/
-theorem sortInts_head (x : Int) (xs : List Int) :
-    ∃ rest, CMS.sortInts (x :: xs) = xs.foldl min x :: rest := by
-  have hperm := List.mergeSort_perm (x :: xs) (fun a b => decide (a ≤ b))
-  have hsorted := List.pairwise_mergeSort (le := fun a b => decide (a ≤ b))
-    (by intro a b c; simp; omega) (by intro a b; simp; omega) (x :: xs)
-  unfold CMS.sortInts
-  generalize (x :: xs).mergeSort (fun a b => decide (a ≤ b)) = s at hperm hsorted
-  cases s with
-  | nil => exact absurd hperm.length_eq (by simp)
-  | cons y ys =>
-      refine ⟨ys, ?_⟩
-      congr 1
-      have hy : y ∈ x :: xs := hperm.mem_iff.mp (by simp)
-      have hmin := foldl_min_le xs x
-      have hmem := foldl_min_mem xs x
-      have hm : xs.foldl min x ∈ y :: ys := hperm.mem_iff.mpr (by
-        rcases hmem with h | h
-        · rw [h]; simp
-        · exact List.mem_cons_of_mem _ h)
-      have h1 : xs.foldl min x ≤ y := by
-        rcases List.mem_cons.mp hy with rfl | hy
-        · exact hmin.1
-        · exact hmin.2 y hy
-      have h2 : y ≤ xs.foldl min x := by
-        rcases List.mem_cons.mp hm with h | h
-        · omega
-        · have := (List.pairwise_cons.mp hsorted).1 _ h
-          simpa using this
-      omega
-
-theorem binIdx_default (c : CMS) (key : Key) :
-    c.binIdx (defaultFnv key c.d) = (List.range c.d).map fun i => Spec.hashI key.units i % c.w + i * c.w := by
-  unfold CMS.binIdx
-  rw [defaultFnv_spec, List.length_map, List.length_range, List.zipWith_map_right, List.zipWith_self]
-
-theorem cms_idx_lt {w d i r : Nat} (hi : i < d) (hr : r < w) : r + i * w < w * d := by
-  have : (i + 1) * w ≤ d * w := Nat.mul_le_mul_right w hi
-  rw [Nat.succ_mul] at this
-  rw [Nat.mul_comm w d]; omega
-
-
-theorem zip_map_self_rf {α β} (l : List α) (f : α → β) : l.zip (l.map f) = l.map fun k => (k, f k) := by
-  induction l with
-  | nil => rfl
-  | cons a l ih => simp [ih]
-
-/-! ### counting Bloom: the store loop is a sequence of saturating increments -/
-
-/-- `cells[p] = min(cells[p] + 1, UINT32_MAX)` on the model's cell list -/
-def incrI (cells : List Int) (p : Nat) : List Int := cells.set p (min (cells.getD p 0 + 1) 4294967295)
-
-theorem incrI_length (cells : List Int) (p : Nat) : (incrI cells p).length = cells.length := by simp [incrI]
-
-theorem incrI_range (cells : List Int) (p : Nat) (h : ∀ x ∈ cells, 0 ≤ x ∧ x ≤ 4294967295) :
-    ∀ x ∈ incrI cells p, 0 ≤ x ∧ x ≤ 4294967295 := by
-  intro x hx
-  rcases List.mem_or_eq_of_mem_set hx with hx | rfl
-  · exact h x hx
-  · have : 0 ≤ cells.getD p 0 := by
-      rw [List.getD_eq_getElem?_getD]
-      cases hq : cells[p]? with
-      | none => simp
-      | some v => simpa using (h v (List.mem_of_getElem? hq)).1
-    omega
-
-theorem incrI_getD_max (cells : List Int) (p q : Nat) (h : cells.getD q 0 = 4294967295) :
-    (incrI cells p).getD q 0 = 4294967295 := by
-  unfold incrI
-  rw [List.getD_eq_getElem?_getD] at h
-  by_cases hpq : p = q
-  · subst hpq
-    by_cases hp : p < cells.length
-    · simp only [List.getD_eq_getElem?_getD, List.getElem?_set_self hp, Option.getD_some]
-      omega
-    · rw [List.set_eq_of_length_le (by omega), List.getD_eq_getElem?_getD]; exact h
-  · simpa [List.getD_eq_getElem?_getD, List.getElem?_set_ne hpq] using h
-
-theorem foldl_incrI_inv (ps : List Nat) (cells : List Int) (h : ∀ x ∈ cells, 0 ≤ x ∧ x ≤ 4294967295) :
-    (ps.foldl incrI cells).length = cells.length ∧ ∀ x ∈ ps.foldl incrI cells, 0 ≤ x ∧ x ≤ 4294967295 := by
-  induction ps generalizing cells with
-  | nil => exact ⟨rfl, h⟩
-  | cons p ps ih =>
-      simp only [List.foldl_cons]
-      have := ih (incrI cells p) (incrI_range _ _ h)
-      rw [incrI_length] at this
-      exact this
-
-theorem cbf_addLoop_one (cur : List Int) (pairs : List (Nat × Int)) (acc : List Int)
-    (hcur : ∀ x ∈ cur, 0 ≤ x ∧ x ≤ 4294967295)
-    (hp : ∀ kv ∈ pairs, kv.2 > 4294967295 → cur.getD kv.1 0 = 4294967295) :
-    ∃ vals, CBF.addLoop 1 cur pairs acc = ((pairs.map (·.1)).foldl incrI cur, vals, none) := by
-  induction pairs generalizing cur acc with
-  | nil => exact ⟨_, rfl⟩
-  | cons kv rest ih =>
-      obtain ⟨k, v⟩ := kv
-      have hk := hp (k, v) (by simp)
-      have hrest : ∀ kv ∈ rest, kv.2 > 4294967295 → (incrI cur k).getD kv.1 0 = 4294967295 :=
-        fun kv hkv hv => incrI_getD_max _ _ _ (hp kv (List.mem_cons_of_mem _ hkv) hv)
-      have hnn : 0 ≤ cur.getD k 0 := by
-        rw [List.getD_eq_getElem?_getD]
-        cases hq : cur[k]? with
-        | none => simp
-        | some x => simpa using (hcur x (List.mem_of_getElem? hq)).1
-      have hmax : Gen.uint32Max = 4294967295 := rfl
-      simp only [CBF.addLoop, Gen.cbfAddClampCmp, Cmp.evalInt, List.map_cons, List.foldl_cons,
-        decide_eq_true_eq]
-      by_cases hv : v > Gen.uint32Max
-      · rw [if_pos hv]
-        have : cur.set k Gen.uint32Max = incrI cur k := by
-          unfold incrI; rw [hk (by omega)]; rfl
-        rw [this]
-        exact ih _ _ (incrI_range _ _ hcur) hrest
-      · rw [if_neg hv]
-        have e : (if cur.getD k 0 + 1 > Gen.uint32Max then Gen.uint32Max else cur.getD k 0 + 1)
-            = min (cur.getD k 0 + 1) 4294967295 := by split <;> omega
-        simp only [e]
-        rw [if_neg (by omega)]
-        exact ih _ _ (incrI_range _ _ hcur) hrest
-
-/-- one `add` of a key under the default strategy -/
-theorem cbf_add_default (c : CBF) (key : Key) (hlen : c.cells.length = c.m)
-    (hcells : ∀ x ∈ c.cells, 0 ≤ x ∧ x ≤ 4294967295) :
-    (c.addAlt (defaultFnv key c.k) 1).1 =
-      { c with cells := (Spec.bloomPositions c.k c.m key.units).foldl incrI c.cells,
-               count := min (c.count + 1) 18446744073709551615 } := by
-  have hidx : c.indices (defaultFnv key c.k) = .ok (Spec.bloomPositions c.k c.m key.units) := by
-    unfold CBF.indices
-    rw [if_neg (by rw [C18.C18_len_default]; omega), List.take_of_length_le (by rw [C18.C18_len_default]; omega),
-      defaultFnv_spec, hlen]
-    simp [Spec.bloomPositions, List.map_map, Function.comp_def]
-  unfold CBF.addAlt
-  rw [hidx]
-  simp only [zip_map_self_rf]
-  obtain ⟨vals, hv⟩ := cbf_addLoop_one c.cells
-    ((Spec.bloomPositions c.k c.m key.units).map fun k => (k, c.cells.getD k 0 + 1)) [] hcells (by
-      intro kv hkv hgt
-      simp only [List.mem_map] at hkv
-      obtain ⟨p, _, rfl⟩ := hkv
-      simp only at hgt ⊢
-      have : c.cells.getD p 0 ≤ 4294967295 := by
-        rw [List.getD_eq_getElem?_getD]
-        cases hq : c.cells[p]? with
-        | none => simp
-        | some x => simpa using (hcells x (List.mem_of_getElem? hq)).2
-      omega)
-  rw [hv]
-  simp [List.map_map, Function.comp_def, Gen.uint64Max]
-
-theorem cbfRun_eq (k m : Nat) (keys : List Key) (c0 : CBF) (hk : c0.k = k) (hm : c0.m = m)
-    (hlen : c0.cells.length = m) (hcells : ∀ x ∈ c0.cells, 0 ≤ x ∧ x ≤ 4294967295)
-    (hc : c0.count + keys.length ≤ 18446744073709551615) :
-    keys.foldl (fun c key => (c.addAlt (defaultFnv key k) 1).1) c0 =
-      { c0 with
-        cells := (keys.map Key.units).foldl (fun arr key => (Spec.bloomPositions k m key).foldl incrI arr) c0.cells
-        count := c0.count + keys.length } := by
-  induction keys generalizing c0 with
-  | nil => simp
-  | cons key keys ih =>
-      simp only [List.foldl_cons, List.map_cons, List.length_cons]
-      have hstep := cbf_add_default c0 key (by rw [hlen, hm]) hcells
-      rw [hk, hm] at hstep
-      rw [hstep]
-      have hinv := foldl_incrI_inv (Spec.bloomPositions k m key.units) c0.cells hcells
-      simp only [List.length_cons] at hc
-      rw [ih _ rfl rfl (by simp only; rw [hinv.1, hlen]) (by exact hinv.2)
-        (by simp only; omega)]
-      simp only [CBF.mk.injEq, true_and]
-      omega
-
-theorem incrI_toNat (cells : List Int) (p : Nat) (h : ∀ x ∈ cells, 0 ≤ x) :
-    (incrI cells p).map Int.toNat = Spec.incrSat (cells.map Int.toNat) p := by
-  induction cells generalizing p with
-  | nil => simp [incrI, Spec.incrSat]
-  | cons c cs ih =>
-      have hc := h c (by simp)
-      cases p with
-      | zero =>
-          simp only [incrI, List.set_cons_zero, List.getD_cons_zero, List.map_cons, Spec.incrSat]
-          congr 1
-          split <;> omega
-      | succ p =>
-          have := ih p (fun x hx => h x (List.mem_cons_of_mem _ hx))
-          simp only [incrI, List.set_cons_succ, List.getD_cons_succ, List.map_cons, Spec.incrSat] at this ⊢
-          rw [this]
-
-theorem foldl_incrI_toNat (ps : List Nat) (cells : List Int) (h : ∀ x ∈ cells, 0 ≤ x ∧ x ≤ 4294967295) :
-    (ps.foldl incrI cells).map Int.toNat = ps.foldl Spec.incrSat (cells.map Int.toNat) := by
-  induction ps generalizing cells with
-  | nil => rfl
-  | cons p ps ih =>
-      simp only [List.foldl_cons]
-      rw [ih _ (incrI_range _ _ h), incrI_toNat _ _ (fun x hx => (h x hx).1)]
-
-theorem foldl_keys_incrI (k m : Nat) (keys : List (List Nat)) (cells : List Int)
-    (h : ∀ x ∈ cells, 0 ≤ x ∧ x ≤ 4294967295) :
-    let r := keys.foldl (fun arr key => (Spec.bloomPositions k m key).foldl incrI arr) cells
-    (∀ x ∈ r, 0 ≤ x ∧ x ≤ 4294967295) ∧
-    r.map Int.toNat = keys.foldl (fun arr key => (Spec.bloomPositions k m key).foldl Spec.incrSat arr) (cells.map Int.toNat) := by
-  induction keys generalizing cells with
-  | nil => exact ⟨h, rfl⟩
-  | cons key keys ih =>
-      simp only [List.foldl_cons]
-      have hinv := foldl_incrI_inv (Spec.bloomPositions k m key) cells h
-      have := ih _ hinv.2
-      rw [foldl_incrI_toNat _ _ h] at this
-      exact this
-
-/-! ### count-min: the store loop is a sequence of saturating increments -/
-
-/-- `bins[p] = min(bins[p] + 1, INT32_MAX)` on the model's cell list -/
-def incrC (cells : List Int) (p : Nat) : List Int := cells.set p (min (cells.getD p 0 + 1) 2147483647)
-
-theorem incrC_length (cells : List Int) (p : Nat) : (incrC cells p).length = cells.length := by simp [incrC]
-
-theorem getD_range (cells : List Int) (p : Nat) (h : ∀ x ∈ cells, -2147483648 ≤ x ∧ x ≤ 2147483647) :
-    -2147483648 ≤ cells.getD p 0 ∧ cells.getD p 0 ≤ 2147483647 := by
-  rw [List.getD_eq_getElem?_getD]
-  cases hq : cells[p]? with
-  | none => simp
-  | some v => simpa using h v (List.mem_of_getElem? hq)
-
-theorem incrC_range (cells : List Int) (p : Nat) (h : ∀ x ∈ cells, -2147483648 ≤ x ∧ x ≤ 2147483647) :
-    ∀ x ∈ incrC cells p, -2147483648 ≤ x ∧ x ≤ 2147483647 := by
-  intro x hx
-  rcases List.mem_or_eq_of_mem_set hx with hx | rfl
-  · exact h x hx
-  · have := getD_range cells p h
-    omega
-
-theorem foldl_incrC_inv (ps : List Nat) (cells : List Int) (h : ∀ x ∈ cells, -2147483648 ≤ x ∧ x ≤ 2147483647) :
-    (ps.foldl incrC cells).length = cells.length ∧
-      ∀ x ∈ ps.foldl incrC cells, -2147483648 ≤ x ∧ x ≤ 2147483647 := by
-  induction ps generalizing cells with
-  | nil => exact ⟨rfl, h⟩
-  | cons p ps ih =>
-      simp only [List.foldl_cons]
-      have := ih (incrC cells p) (incrC_range _ _ h)
-      rw [incrC_length] at this
-      exact this
-
-theorem incrC_spec (cells : List Int) (p : Nat) : Spec.incrSatI cells p = incrC cells p := by
-  induction cells generalizing p with
-  | nil => simp [incrC, Spec.incrSatI]
-  | cons c cs ih =>
-      cases p with
-      | zero =>
-          simp only [incrC, List.set_cons_zero, List.getD_cons_zero, Spec.incrSatI]
-          congr 1
-          split <;> omega
-      | succ p =>
-          have := ih p
-          simp only [incrC, List.set_cons_succ, List.getD_cons_succ, Spec.incrSatI] at this ⊢
-          rw [this]
-
-theorem cms_addLoop_one (cur : List Int) (ks : List Nat) (acc : List Int) (hnd : ks.Nodup)
-    (hcur : ∀ x ∈ cur, -2147483648 ≤ x ∧ x ≤ 2147483647) :
-    ∃ vals, CMS.addLoop cur (ks.map fun k => (k, cur.getD k 0 + 1)) acc = (ks.foldl incrC cur, vals, none) := by
-  induction ks generalizing cur acc with
-  | nil => exact ⟨_, rfl⟩
-  | cons k rest ih =>
-      have hk := getD_range cur k hcur
-      have hmax : Gen.int32Max = 2147483647 := rfl
-      have hmin : Gen.int32Min = -2147483648 := rfl
-      obtain ⟨hknot, hnd'⟩ := List.nodup_cons.mp hnd
-      have hrest : (rest.map fun k' => (k', cur.getD k' 0 + 1)) =
-          rest.map fun k' => (k', (incrC cur k).getD k' 0 + 1) := by
-        apply List.map_congr_left
-        intro k' hk'
-        have : k ≠ k' := fun e => hknot (e ▸ hk')
-        simp [incrC, List.getD_eq_getElem?_getD, List.getElem?_set_ne this]
-      simp only [List.map_cons, CMS.addLoop, Gen.cmsAddClampCmp, Cmp.evalInt, decide_eq_true_eq, List.foldl_cons]
-      by_cases hv : cur.getD k 0 + 1 > Gen.int32Max
-      · rw [if_pos hv]
-        have : cur.set k Gen.int32Max = incrC cur k := by
-          unfold incrC; congr 1; omega
-        rw [this, hrest]
-        exact ih _ _ hnd' (incrC_range _ _ hcur)
-      · rw [if_neg hv, if_neg (by omega)]
-        have : cur.set k (cur.getD k 0 + 1) = incrC cur k := by
-          unfold incrC; congr 1; omega
-        rw [this, hrest]
-        exact ih _ _ hnd' (incrC_range _ _ hcur)
-
-theorem cms_idx_nodup (w d : Nat) (hw : 0 < w) (r : Nat → Nat) :
-    ((List.range d).map fun i => r i % w + i * w).Nodup := by
-  unfold List.Nodup
-  rw [List.pairwise_map]
-  apply List.Pairwise.imp _ List.pairwise_lt_range
-  intro i j hij
-  have h1 : (i + 1) * w ≤ j * w := Nat.mul_le_mul_right w hij
-  rw [Nat.succ_mul] at h1
-  have := Nat.mod_lt (r i) hw
-  have := Nat.mod_lt (r j) hw
-  omega
-
-/-- one `add` of a key under the default strategy -/
-theorem cms_add_default (c : CMS) (key : Key) (hlen : c.bins.length = c.w * c.d) (hw : 0 < c.w)
-    (hbins : ∀ x ∈ c.bins, -2147483648 ≤ x ∧ x ≤ 2147483647) :
-    (c.addAlt (defaultFnv key c.d) 1).1 =
-      { c with bins := ((List.range c.d).map fun i => Spec.hashI key.units i % c.w + i * c.w).foldl incrC c.bins,
-               total := if c.total + 1 > 9223372036854775807 then 9223372036854775807 else c.total + 1 } := by
-  unfold CMS.addAlt
-  rw [binIdx_default]
-  have hany : ((List.range c.d).map fun i => Spec.hashI key.units i % c.w + i * c.w).any (· ≥ c.bins.length) = false := by
-    simp only [List.any_eq_false, List.mem_map, List.mem_range, decide_eq_true_eq]
-    rintro x ⟨i, hi, rfl⟩
-    have := cms_idx_lt (d := c.d) hi (Nat.mod_lt (Spec.hashI key.units i) hw)
-    omega
-  simp only [hany, Bool.false_eq_true, if_false, zip_map_self_rf]
-  obtain ⟨vals, hv⟩ := cms_addLoop_one c.bins _ [] (cms_idx_nodup c.w c.d hw (Spec.hashI key.units)) hbins
-  rw [hv]
-  simp [Gen.cmsTotalMaxCmp, Cmp.evalInt, Gen.int64Max]
-
-theorem cmsRun_eq (w d : Nat) (hw : 0 < w) (keys : List Key) (c0 : CMS) (hcw : c0.w = w) (hcd : c0.d = d)
-    (hlen : c0.bins.length = w * d) (hbins : ∀ x ∈ c0.bins, -2147483648 ≤ x ∧ x ≤ 2147483647)
-    (ht : c0.total + keys.length ≤ 9223372036854775807) :
-    keys.foldl (fun c key => (c.addAlt (defaultFnv key d) 1).1) c0 =
-      { c0 with
-        bins := (keys.map Key.units).foldl
-          (fun arr key => (List.range d).foldl (fun a i => Spec.incrSatI a (i * w + Spec.hashI key i % w)) arr) c0.bins
-        total := c0.total + keys.length } := by
-  induction keys generalizing c0 with
-  | nil => simp
-  | cons key keys ih =>
-      simp only [List.foldl_cons, List.map_cons, List.length_cons]
-      have hstep := cms_add_default c0 key (by rw [hlen, hcw, hcd]) (by omega) hbins
-      rw [hcw, hcd] at hstep
-      rw [hstep]
-      have hinv := foldl_incrC_inv ((List.range d).map fun i => Spec.hashI key.units i % w + i * w) c0.bins hbins
-      simp only [List.length_cons] at ht
-      rw [ih _ rfl rfl (by simp only; rw [hinv.1, hlen]) (by exact hinv.2) (by simp only; split <;> omega)]
-      simp only [CMS.mk.injEq, hcw, hcd, true_and, and_true]
-      refine ⟨?_, by split <;> omega⟩
-      congr 1
-      rw [List.foldl_map]
-      congr 1
-      funext a i
-      rw [incrC_spec, Nat.add_comm]
-
-theorem cms_keys_range (w d : Nat) (keys : List (List Nat)) (cells : List Int)
-    (h : ∀ x ∈ cells, -2147483648 ≤ x ∧ x ≤ 2147483647) :
-    ∀ x ∈ keys.foldl
-        (fun arr key => (List.range d).foldl (fun a i => Spec.incrSatI a (i * w + Spec.hashI key i % w)) arr) cells,
-      -2147483648 ≤ x ∧ x ≤ 2147483647 := by
-  induction keys generalizing cells with
-  | nil => exact h
-  | cons key keys ih =>
-      simp only [List.foldl_cons]
-      apply ih
-      have e : (List.range d).foldl (fun a i => Spec.incrSatI a (i * w + Spec.hashI key i % w)) cells
-          = ((List.range d).map fun i => i * w + Spec.hashI key i % w).foldl incrC cells := by
-        rw [List.foldl_map]; congr 1; funext a i; rw [incrC_spec]
-      rw [e]
-      exact (foldl_incrC_inv _ cells h).2
-
-/-! ### count-min readers -/
-
-theorem perm_sum_int {l₁ l₂ : List Int} (h : l₁.Perm l₂) : l₁.sum = l₂.sum := by
-  induction h with
-  | nil => rfl
-  | cons x _ ih => simp [ih]
-  | swap x y l => simp only [List.sum_cons]; omega
-  | trans _ _ ih1 ih2 => rw [ih1, ih2]
-
-theorem at'_append_right (a b : Bytes) (i : Nat) : Spec.at' (a ++ b) (a.length + i) = Spec.at' b i := by
-  simp [Spec.at', List.getD_eq_getElem?_getD, List.getElem?_append_right]
-
-theorem rdU32_append_right (a b : Bytes) (off : Nat) :
-    Spec.rdU32 (a ++ b) (a.length + off) = Spec.rdU32 b off := by
-  unfold Spec.rdU32
-  simp only [Nat.add_assoc, at'_append_right]
-
-theorem rdI64_append_right (a b : Bytes) (off : Nat) :
-    Spec.rdI64 (a ++ b) (a.length + off) = Spec.rdI64 b off := by
-  unfold Spec.rdI64 Spec.rdU64
-  simp only [Nat.add_assoc, rdU32_append_right]
-
-theorem rdI64_cmsFooter (w d : Nat) (t : Int) (h0 : -9223372036854775808 ≤ t) (h1 : t ≤ 9223372036854775807) :
-    Spec.rdI64 (Spec.cmsFooter w d t) 8 = t := by
-  simp only [Spec.rdI64, Spec.rdU64, Spec.rdU32, Spec.cmsFooter, Spec.u32le, Spec.i64le, Spec.u64le, Spec.at',
-    List.cons_append, List.nil_append, List.getD_eq_getElem?_getD]
-  simp only [List.getElem?_cons_succ, List.getElem?_cons_zero, Option.getD_some]
-  split <;> split <;> omega
-
-theorem flatMap_i32le_length (cells : List Int) : (cells.flatMap Spec.i32le).length = 4 * cells.length := by
-  induction cells with
-  | nil => rfl
-  | cons c cs ih =>
-      simp only [List.flatMap_cons, List.length_append, List.length_cons, ih]
-      simp [Spec.i32le, Spec.u32le]; omega
-
-/-- the footer's `elements_added`, read back from the file -/
-theorem rdI64_cmsFile (w d : Nat) (cells : List Int) (t : Int) (hlen : cells.length = w * d)
-    (h0 : -9223372036854775808 ≤ t) (h1 : t ≤ 9223372036854775807) :
-    Spec.rdI64 (Spec.cmsFileFlat w d cells t) (4 * (w * d) + 8) = t := by
-  unfold Spec.cmsFileFlat
-  rw [← hlen, ← flatMap_i32le_length, rdI64_append_right, rdI64_cmsFooter w d t h0 h1]
-
-/-- `check` under the default strategy: the query applied to the sorted counters read from the file -/
-theorem cms_check_default (c : CMS) (key : Key)
-    (hlen : c.bins.length = c.w * c.d) (hw : 0 < c.w)
-    (hbins : ∀ x ∈ c.bins, -2147483648 ≤ x ∧ x ≤ 2147483647) :
-    c.checkAlt (defaultFnv key c.d) =
-      c.query c.total (Spec.cmsSorted c.w c.d (Spec.cmsFileFlat c.w c.d c.bins c.total) key.units) := by
-  unfold CMS.checkAlt
-  rw [binIdx_default]
-  have hany : ((List.range c.d).map fun i => Spec.hashI key.units i % c.w + i * c.w).any (· ≥ c.bins.length) = false := by
-    simp only [List.any_eq_false, List.mem_map, List.mem_range, decide_eq_true_eq]
-    rintro x ⟨i, hi, rfl⟩
-    have := cms_idx_lt (d := c.d) hi (Nat.mod_lt (Spec.hashI key.units i) hw)
-    omega
-  simp only [hany, Bool.false_eq_true, if_false]
-  have hvals : ((List.range c.d).map fun i => Spec.hashI key.units i % c.w + i * c.w).map (fun x => c.bins.getD x 0)
-      = (List.range c.d).map (Spec.cmsCellOf c.w (Spec.cmsFileFlat c.w c.d c.bins c.total) key.units) := by
-    rw [List.map_map]
-    apply List.map_congr_left
-    intro i hi
-    simp only [Function.comp_def, Spec.cmsCellOf, Spec.cmsFileFlat]
-    rw [rdI32_cells _ _ _ (by rw [hlen, Nat.add_comm]; exact cms_idx_lt (List.mem_range.mp hi) (Nat.mod_lt _ hw)) hbins,
-      Nat.add_comm]
-  rw [hvals]
-  rfl
-
-theorem cmsSorted_length (w d : Nat) (file key : Bytes) : (Spec.cmsSorted w d file key).length = d := by
-  simp [Spec.cmsSorted]
-
-theorem cmsSorted_sum (w d : Nat) (file key : Bytes) :
-    (Spec.cmsSorted w d file key).sum = ((List.range d).map (Spec.cmsCellOf w file key)).sum :=
-  perm_sum_int (List.mergeSort_perm _ _)
-
-theorem cmsSorted_head (w d : Nat) (file key : Bytes) :
-    (Spec.cmsSorted w d file key).head? = Spec.refReaderCmsMin w d file key := by
-  unfold Spec.cmsSorted Spec.refReaderCmsMin
-  cases (List.range d).map (Spec.cmsCellOf w file key) with
-  | nil => simp
-  | cons x xs =>
-      obtain ⟨rest, hr⟩ := sortInts_head x xs
-      unfold CMS.sortInts at hr
-      rw [hr]; rfl
-
-end PyProb
+import PyProb.Lemmas.ReferenceCommon
+import PyProb.Lemmas.ReferenceBloom
+import PyProb.Lemmas.ReferenceCms
